@@ -198,6 +198,39 @@ func VerifC17_hashLiteral() {
 	}
 }
 
+// VerifC17_hashBoundaries: literals longer than the symbolic bound of VerifC17_hashLiteral, at the
+// boundaries of the documented bucket range 0..9999 (concrete literals, one symbolic probe bucket):
+// accepted exactly when every number is in range and start <= end; the set buckets are exactly the range.
+type hashCaseC17 struct {
+	lit    string
+	ok     bool
+	lo, hi int
+}
+
+var hashCasesC17 = []hashCaseC17{
+	{"0", true, 0, 0}, {"9999", true, 9999, 9999}, {"10000", false, 0, 0}, {"00009999", true, 9999, 9999},
+	{"99999999999999999999", false, 0, 0}, {"0-9999", true, 0, 9999}, {"9998-9999", true, 9998, 9999},
+	{"9999-10000", false, 0, 0}, {"5-4", false, 0, 0}, {"-1", false, 0, 0}, {"1-2-3", false, 0, 0},
+	{" 12 - 13 ", true, 12, 13}, {"", false, 0, 0}, {"7|", false, 0, 0}, {"100-200|1000-1000", true, -1, -1},
+}
+
+func VerifC17_hashBoundaries() {
+	c := hashCasesC17[vrt.Choose("case", len(hashCasesC17))]
+	m, err := NewHashMatcher(c.lit, false)
+	vrt.Assert((err == nil) == c.ok, "C17/hash-literal-accepted-iff-in-range")
+	vrt.Assert((m != nil) != (err != nil), "C17/hash-matcher-xor-error")
+	if err != nil {
+		return
+	}
+	probe := vrt.Int("probe")
+	vrt.Assume(probe >= 0 && probe < HashMatcherBucketSize)
+	want := probe >= c.lo && probe <= c.hi
+	if c.lo < 0 { // the documented example "100-200|1000-1000"
+		want = probe >= 100 && probe <= 200 || probe == 1000
+	}
+	vrt.Assert(m.buckets[probe] == want, "C17/hash-buckets-are-the-range")
+}
+
 // VerifC17_ipLiteral: NewIpInMatcher / NewIPMatcher on symbolic literals of <= IL bytes: no panic,
 // matcher xor error; an accepted range has start <= end.
 func VerifC17_ipLiteral() {
